@@ -4,6 +4,7 @@ From RP2V Require Import Model.EntryJp.
 From RP2V Require Import Model.EntryFull.
 From RP2V Require Import Model.EntryL6.
 From RP2V Require Import Model.EntryOpenPos.
+From RP2V Require Import Model.Generated Model.EntryTaxReport.
 Open Scope Z_scope.
 
 Definition entry (cmd : Z) (args : list Z) : list Z :=
@@ -34,4 +35,8 @@ Definition entry (cmd : Z) (args : list Z) : list Z :=
   if cmd =? 94 then entry_static_detail args else
   if cmd =? 70 then entry_open_positions args else
   if cmd =? 71 then entry_open_positions_first args else
+  if cmd =? 60 then entry_tax_report tax_tables_us args else
+  if cmd =? 61 then entry_tax_report tax_tables_ie args else
+  if cmd =? 62 then entry_tax_maps args else
+  if cmd =? 63 then entry_tax_text args else
   [-999].
